@@ -266,6 +266,8 @@ func quoteAll(l []string) []string {
 	return q
 }
 
+const hdrNote = " [hostile run also sets X-Forwarded-For (3 hops), X-Real-Ip, X-Forwarded-Host/-Proto/-User/-Email, User-Agent, Referer, Origin, Authorization, X-Access-Token and extra Cookie values to a comment/CDATA/RCDATA/raw-text/attribute breaker]"
+
 func ctOf(rec *httptest.ResponseRecorder) string { return rec.Header().Get("Content-Type") }
 
 func (w *world) proxySiteCase(idx int, hl []string, must bool, variants []vmode) {
@@ -325,9 +327,9 @@ func (w *world) proxySiteCase(idx int, hl []string, must bool, variants []vmode)
 		names = append(names, v.String())
 	}
 	if s.static {
-		w.sameCase(0, idx, s.name, hl, ctOf(rec), real, benign, vars, names)
+		w.sameCase(0, idx, s.name+hdrNote, hl, ctOf(rec), real, benign, vars, names)
 	} else {
-		w.pageCaseB(0, "error.html", *data, ctOf(rec), real, benign, 1, s.name, vars, names)
+		w.pageCaseB(0, "error.html", *data, ctOf(rec), real, benign, 1, s.name+hdrNote, vars, names)
 	}
 }
 
@@ -766,7 +768,7 @@ func (w *world) authSiteCase(idx int, hl []string, must bool, variants []vmode) 
 		vars = append(vars, varCoq(mode, ctOf(r), r.Body.String(), real, rb.Body.String(), benign))
 		names = append(names, v.String())
 	}
-	w.pageCaseB(1, name, data, ctOf(rec), real, benign, 1, s.name, vars, names)
+	w.pageCaseB(1, name, data, ctOf(rec), real, benign, 1, s.name+hdrNote, vars, names)
 }
 
 // siteCorpus: every call site with each classic hostile list; the expected status must be reached.
